@@ -1,6 +1,11 @@
 #!/bin/bash
 # seedrun.sh <patch.diff> <Cxx> [tier] : apply a seeded change to /repo, run the check, undo
+# (the evidence file and the generated Lean files of the unchanged tree are put back afterwards)
 P=$1; PID=$2; TIER=${3:-quick}
 git -C /repo apply $P || { echo "patch does not apply"; exit 2; }
-cd /verif && ./check $PID --tier $TIER 2>&1 | tail -${TAILN:-6}
+cd /verif
+cp evidence/$PID.json /tmp/seedrun-$PID-evidence.json 2>/dev/null
+./check $PID --tier $TIER 2>&1 | tail -${TAILN:-6}
 git -C /repo checkout -- .
+[ -f /tmp/seedrun-$PID-evidence.json ] && mv /tmp/seedrun-$PID-evidence.json evidence/$PID.json
+/venv/bin/python harness/translate.py > /dev/null 2>&1
